@@ -976,11 +976,30 @@ class Interp:
         b = self.eval(n.right)
         return self.binop(n.op, a, b)
 
+    def _no_effects_here(self, node):
+        """like _no_effects, but a call self.<m>(...) of a method whose contract is an assumed PURE model (no forks, no
+        effects, e.g. a relation) may take part in the speculative non-forking evaluation"""
+        for x in ast.walk(node):
+            if isinstance(x, ast.Call):
+                f = x.func
+                ok = False
+                if isinstance(f, ast.Attribute) and isinstance(f.value, ast.Name) and f.value.id == "self":
+                    this = self.env.get("self")
+                    if this is not None and getattr(this, "tag", None) == "obj":
+                        fc = self.cset.lookup_method(this.ref.cls, f.attr)
+                        ok = fc is not None and fc.model is not None and fc.pure
+                if not ok:
+                    return False
+            elif isinstance(x, (ast.Await, ast.NamedExpr, ast.Yield, ast.YieldFrom, ast.Lambda, ast.ListComp,
+                                ast.SetComp, ast.DictComp, ast.GeneratorExp)):
+                return False
+        return True
+
     def e_BoolOp(self, n):
         # short-circuit, returns operands
         is_and = isinstance(n.op, ast.And)
         v = None
-        if not self.spec_depth and all(_no_effects(x) for x in n.values):
+        if not self.spec_depth and all(self._no_effects_here(x) for x in n.values):
             # speculative non-forking evaluation of a side-effect free condition: later operands are evaluated
             # under the hypothesis that the earlier ones did not short-circuit; abandoned if anything would
             # fork or raise (then the faithful short-circuit evaluation below is used)
